@@ -4,6 +4,7 @@ package main
 // (operators and assignment forms travel as names) for the TLA+ monitors, so text and AST cannot diverge.
 
 import (
+	"encoding/json"
 	"fmt"
 	"strconv"
 	"strings"
@@ -300,6 +301,29 @@ func (p *Program) GRL() string {
 		parts[i] = r.GRL()
 	}
 	return strings.Join(parts, "\n")
+}
+
+// JSONText prints the program as a JSON rule set (variant json: the same rules through the JSON front end). Condition and
+// actions are GRL text (taken over as it is), a member the GRL text leaves out (description, salience) is left out here too.
+func (p *Program) JSONText() string {
+	rules := []interface{}{}
+	for _, r := range p.Rules {
+		j := J{"name": r.Name, "when": bare(r.When, r.Bare)}
+		if r.Desc != "" {
+			j["desc"] = r.Desc
+		}
+		if r.HasSal {
+			j["salience"] = r.Sal
+		}
+		then := []interface{}{}
+		for _, a := range r.Then {
+			then = append(then, a.GRL())
+		}
+		j["then"] = then
+		rules = append(rules, j)
+	}
+	b, _ := json.Marshal(rules)
+	return string(b)
 }
 
 // Parts splits the program into k resources (rule order kept).
